@@ -14,7 +14,9 @@ search tree and the size field can be tracked through the ideal map).
 
 **Model boundary.**  Balance is proved for the algebraic tree.  That the pointer code — rotations with
 their re-parenting lines, `transplant`, and `rebalance_after_delete` reading `x->parent` of the shared
-sentinel (the "sentinel parent trick") — performs CLRS's cases at these nodes is not a theorem here: it
+sentinel (the "sentinel parent trick") — performs CLRS's cases at these nodes is not a theorem here
+(`Properties/C03PTree.lean` proves it for the rotations, `transplant` and the six insert fix-up cases and the whole
+insert fix-up loop on the pointer-level model `Model/PTree.lean`; the delete fix-up is not proved there): it
 rests on the correspondence harness, which compares the complete pre-order dump (keys, values, colours,
 shape) of the C heap with this model after every operation and walks parent pointers, colours and black
 heights on the C heap itself. -/
